@@ -4,6 +4,7 @@ package main
 import (
 	"context"
 	"fmt"
+	"os"
 	"runtime/debug"
 	"strings"
 	"sync"
@@ -19,23 +20,34 @@ import (
 
 // tracked collects every event of one stream.
 type tracked struct {
-	name string
-	s    *peer.Stream
-	mu   sync.Mutex
-	cond *sync.Cond
-	seen map[string]bool
-	n    int
-	done bool
+	name    string
+	s       *peer.Stream
+	mode    openMode // how the GET was issued (plain / with which kind of Last-Event-ID)
+	mu      sync.Mutex
+	cond    *sync.Cond
+	seen    map[string]bool
+	n       int
+	notices int // "stream/resumed" frames: written by the server's resumption step, never the delivery of a judged send
+	done    bool
 }
 
-func track(name string, s *peer.Stream) *tracked {
+// track reads the stream in the background; the session's client (e) is told the id of every event received, the
+// way a real SSE client remembers its Last-Event-ID.
+func track(name string, s *peer.Stream, e *env) *tracked {
 	t := &tracked{name: name, s: s, seen: map[string]bool{}}
 	t.cond = sync.NewCond(&t.mu)
 	go func() {
 		for ev := range s.Events {
+			if ev.ID != "" {
+				e.noteID(ev.ID)
+			}
 			t.mu.Lock()
 			t.n++
-			if i := strings.Index(ev.Data, `"nonce":"`); i >= 0 {
+			if strings.Contains(ev.Data, `"stream/resumed"`) {
+				// extra frame of a resumed stream; deliveries are matched by nonce only
+				t.notices++
+				e.r.Count("stream_resumed_notices_seen", 1)
+			} else if i := strings.Index(ev.Data, `"nonce":"`); i >= 0 {
 				rest := ev.Data[i+9:]
 				if j := strings.Index(rest, `"`); j >= 0 {
 					t.seen[rest[:j]] = true
@@ -86,6 +98,11 @@ type env struct {
 	sid string
 	n   int
 	ctl *sched.Controller
+	// what the session's client remembers of the events it received (see resume.go)
+	idmu   sync.Mutex
+	ids    []string
+	staleN int
+	garbN  int
 }
 
 func newEnv(r *vh.Run, in *kit.Instance, ctl *sched.Controller) *env {
@@ -97,16 +114,15 @@ func newEnv(r *vh.Run, in *kit.Instance, ctl *sched.Controller) *env {
 	if err := c.Handshake(ctx); err != nil {
 		r.Fatal("handshake: %v", err)
 	}
-	return &env{r: r, in: in, hp: c.HP, sid: c.SessionID, ctl: ctl}
+	e := &env{r: r, in: in, hp: c.HP, sid: c.SessionID, ctl: ctl}
+	// every session gets a history first: a listening stream on which events were received, so that the GETs of the
+	// scenario can be issued the way a reconnecting client issues them (with a Last-Event-ID)
+	e.prime()
+	return e
 }
 
-func (e *env) open(name string) (*tracked, error) {
-	s, re := e.hp.OpenStream(context.Background(), "GET", e.in.URL(), map[string]string{"Accept": "text/event-stream", "Mcp-Session-Id": e.sid}, 1024)
-	if s == nil {
-		return nil, fmt.Errorf("GET refused: status %d %s", re.Status, re.Err)
-	}
-	return track(name, s), nil
-}
+// open issues a plain GET (no Last-Event-ID).
+func (e *env) open(name string) (*tracked, error) { return e.openAs(name, mPlain) }
 
 func (e *env) send(tag string) (nonce string, err error) {
 	e.n++
@@ -184,25 +200,33 @@ func (e *env) expectOn(scenario, gap string, want *tracked, others ...*tracked) 
 	return true
 }
 
-func scenarioHT(r *vh.Run, in *kit.Instance) {
+func scenarioHT(r *vh.Run, in *kit.Instance, mA, mB openMode) {
+	name := "H-T" + modeSuffix(mA, mB)
+	// how long the headers of a GET parked before its table store are waited for (loopback: they are there within a
+	// millisecond when the implementation sends them early); waiting shorter can only make the gap "not realisable"
+	hdrWait := 2 * time.Second
+	if name != "H-T" {
+		hdrWait = 500 * time.Millisecond
+	}
 	// S between "B's headers received" and "B stored", old stream A still alive.
 	ctl := sched.New(8*time.Second, r.Seed)
 	ctl.Install()
 	defer sched.Uninstall()
 	e := newEnv(r, in, ctl)
-	a, err := e.open("A")
+	a, err := e.openAs("A", mA)
 	if err != nil {
 		r.Fatal("open A: %v", err)
 	}
+	settled(a) // A is the established stream of this schedule: its own post-registration step is over
 	e.registered(1, 3*time.Second)
-	e.expectOn("H-T", "baseline-on-A", a)
+	e.expectOn(name, "baseline-on-A", a)
 	ctl.Hold("get.H")
 	type res struct {
 		t   *tracked
 		err error
 	}
 	ch := make(chan res, 1)
-	go func() { b, err := e.open("B"); ch <- res{b, err} }()
+	go func() { b, err := e.openAs("B", mB); ch <- res{b, err} }()
 	var b *tracked
 	realised := false
 	select {
@@ -214,12 +238,12 @@ func scenarioHT(r *vh.Run, in *kit.Instance) {
 		b = x.t
 		if ctl.AwaitWaiting("get.H", 1, 2*time.Second) >= 1 {
 			realised = true
-			ok := e.expectOn("H-T", "after-headers-before-store", b, a)
+			ok := e.expectOn(name, "after-headers-before-store", b, a)
 			if ok {
-				r.Distinct("H-T|send-between-headers-and-store|delivered-on-new")
+				r.Distinct(name + "|send-between-headers-and-store|delivered-on-new")
 			}
 		}
-	case <-time.After(2 * time.Second):
+	case <-time.After(hdrWait):
 		// headers are not visible while the handler is held at H: the implementation flushes after the store
 	}
 	ctl.Release("get.H")
@@ -233,37 +257,39 @@ func scenarioHT(r *vh.Run, in *kit.Instance) {
 	if !realised {
 		r.Count("schedules_not_realisable", 1)
 		r.SetAdd("not_realisable", "H-T: headers are not at the peer while the handler is before the table store")
-		r.Distinct("H-T|headers-only-after-store")
+		r.Distinct(name + "|headers-only-after-store")
 	} else {
 		r.Count("schedules_realised", 1)
 	}
 	// after the headers (and the release) every send belongs to B
-	if e.expectOn("H-T", "after-store", b, a) {
-		r.Distinct("H-T|send-after-store")
+	if e.expectOn(name, "after-store", b, a) {
+		r.Distinct(name + "|send-after-store")
 	}
 	if !a.ended(10 * time.Second) {
-		r.Violation("C11|H-T|old-stream-not-closed", "the old stream was not closed after a newer stream registered", nil)
+		r.Violation("C11|"+name+"|old-stream-not-closed", "the old stream was not closed after a newer stream registered", nil)
 	}
-	if e.expectOn("H-T", "after-old-exit", b, a) {
-		r.Distinct("H-T|send-after-old-exit")
+	if e.expectOn(name, "after-old-exit", b, a) {
+		r.Distinct(name + "|send-after-old-exit")
 	}
 	b.s.Close()
 }
 
-func scenarioE(r *vh.Run, in *kit.Instance, peerCloses bool) {
+func scenarioE(r *vh.Run, in *kit.Instance, peerCloses bool, mA, mB openMode) {
 	// the old handler woke (cancelled by the newcomer, or its peer went away) and is held before its table delete
 	name := "E-cancelled"
 	if peerCloses {
 		name = "E-peer-closed"
 	}
+	name += modeSuffix(mA, mB)
 	ctl := sched.New(8*time.Second, r.Seed)
 	ctl.Install()
 	defer sched.Uninstall()
 	e := newEnv(r, in, ctl)
-	a, err := e.open("A")
+	a, err := e.openAs("A", mA)
 	if err != nil {
 		r.Fatal("open A: %v", err)
 	}
+	settled(a) // A is the established stream of this schedule: its own post-registration step is over
 	e.registered(1, 3*time.Second)
 	ctl.Hold("get.E")
 	if peerCloses {
@@ -274,7 +300,7 @@ func scenarioE(r *vh.Run, in *kit.Instance, peerCloses bool) {
 			return
 		}
 	}
-	b, err := e.open("B")
+	b, err := e.openAs("B", mB)
 	if err != nil {
 		r.Fatal("open B: %v", err)
 	}
@@ -313,19 +339,21 @@ func countOthers(in *kit.Instance, n int) int { return n }
 // lock, parked at a yield point between the lines of the event) while the old stream's peer goes away and a new
 // stream registers; the old handler therefore sits between "my stream is over" and its clean-up until the
 // writer is released — after the successor has registered.
-func scenarioWriterInside(r *vh.Run, in *kit.Instance, point string, queued int, queuedKind string) {
+func scenarioWriterInside(r *vh.Run, in *kit.Instance, point string, queued int, queuedKind string, mA, mB openMode) {
 	name := "writer-inside-old@" + point
 	if queued > 0 {
 		name = fmt.Sprintf("writer-inside-old@%s+%d-%s-queued-behind", point, queued, queuedKind)
 	}
+	name += modeSuffix(mA, mB)
 	ctl := sched.New(8*time.Second, r.Seed)
 	ctl.Install()
 	defer sched.Uninstall()
 	e := newEnv(r, in, ctl)
-	a, err := e.open("A")
+	a, err := e.openAs("A", mA)
 	if err != nil {
 		r.Fatal("open A: %v", err)
 	}
+	settled(a) // A is the established stream of this schedule: its own post-registration step is over
 	e.registered(1, 3*time.Second)
 	ctl.Hold(point)
 	sendDone := make(chan struct{})
@@ -366,7 +394,7 @@ func scenarioWriterInside(r *vh.Run, in *kit.Instance, point string, queued int,
 	// the point stays held for the old stream's writer only: the new stream's own writes must pass
 	bch := make(chan *tracked, 1)
 	go func() {
-		b, err := e.open("B")
+		b, err := e.openAs("B", mB)
 		if err != nil {
 			bch <- nil
 			return
@@ -404,16 +432,24 @@ func scenarioWriterInside(r *vh.Run, in *kit.Instance, point string, queued int,
 func scenarioSequential(r *vh.Run, in *kit.Instance, rounds int) {
 	e := newEnv(r, in, nil)
 	var prev *tracked
+	rot := int(r.Seed % 4)
+	if rot < 0 {
+		rot = -rot
+	}
 	for i := 0; i < rounds; i++ {
-		cur, err := e.open(fmt.Sprintf("S%d", i))
+		// how the stream is (re)opened rotates against the close pattern below: every (mode, predecessor open /
+		// closed by its peer) combination occurs; "last" is the id of the event received last, i.e. on the previous stream
+		m := allModes[(i+rot)%len(allModes)]
+		name := "reopen" + modeSuffix(m)
+		cur, err := e.openAs(fmt.Sprintf("S%d", i), m)
 		if err != nil {
 			r.Fatal("open: %v", err)
 		}
-		if e.expectOn("reopen", fmt.Sprintf("after-open-%d", min(i, 3)), cur, prev) {
-			r.Distinct(fmt.Sprintf("reopen|%d", min(i, 3)))
+		if e.expectOn(name, fmt.Sprintf("after-open-%d", min(i, 3)), cur, prev) {
+			r.Distinct(fmt.Sprintf("%s|%d|prev-open=%v", name, min(i, 3), prev != nil))
 		}
 		if prev != nil && !prev.ended(10*time.Second) {
-			r.Violation("C11|reopen|old-stream-not-closed", "the previous stream stayed open after a newer one registered", nil)
+			r.Violation("C11|"+name+"|old-stream-not-closed", "the previous stream stayed open after a newer one registered", nil)
 		}
 		if i%3 == 2 {
 			// peer closes the current one, then reopens
@@ -476,15 +512,19 @@ func storm(r *vh.Run, in *kit.Instance, idx int, reconnects int) {
 			// the peer drops its stream just before / while reopening
 			go prev.s.Close()
 		}
-		cur, err := e.open(fmt.Sprintf("R%d", i))
+		// most reconnects carry the id of the event received last, as a real client's do
+		m := stormMode(rng)
+		name := "storm" + modeSuffix(m)
+		cur, err := e.openAs(fmt.Sprintf("R%d", i), m)
 		if err != nil {
-			r.Violation("C11|storm|open-refused", err.Error(), nil)
+			r.Violation("C11|"+name+"|open-refused", err.Error(), nil)
 			break
 		}
 		// headers received: from now on a send must reach cur
-		if !e.expectOn("storm", "after-headers", cur, prev) {
+		if !e.expectOn(name, "after-headers", cur, prev) {
 			break
 		}
+		r.Count("storm_reconnects_judged_open="+m.String(), 1)
 		prev = cur
 	}
 	close(stop)
@@ -500,6 +540,14 @@ func storm(r *vh.Run, in *kit.Instance, idx int, reconnects int) {
 	}
 }
 
+var t0 = time.Now()
+
+func tm(what string) {
+	if os.Getenv("C11_TIMING") != "" {
+		fmt.Fprintf(os.Stderr, "TIMING %s %.1fs\n", what, time.Since(t0).Seconds())
+	}
+}
+
 func main() {
 	kit.MaybeServeStdioChild()
 	kit.Silence()
@@ -507,25 +555,40 @@ func main() {
 	in := kit.Start(kit.SJSON, kit.Opts{})
 	defer in.Close()
 	kit.StdFixture(in)
-	reps := r.Pick(3, 20)
-	for i := 0; i < reps; i++ {
-		scenarioHT(r, in)
-		scenarioE(r, in, false)
-		scenarioE(r, in, true)
-		scenarioWriterInside(r, in, "sse.write.afterid", 0, "")
-		scenarioWriterInside(r, in, "sse.write.beforeterm", 0, "")
-		scenarioWriterInside(r, in, "sse.write.afterid", 1, "notification")
-		scenarioWriterInside(r, in, "sse.write.beforeterm", 3, "notification")
-		scenarioWriterInside(r, in, "sse.write.afterid", 2, "request")
+	// how each of the two streams is opened is a dimension of every schedule: plain>plain as often as before, every
+	// other (A, B) combination of {plain, last, stale, garbage} besides
+	for _, mA := range allModes {
+		for _, mB := range allModes {
+			reps := r.Pick(1, 4)
+			if mA == mPlain && mB == mPlain {
+				reps = r.Pick(3, 20)
+			}
+			for i := 0; i < reps; i++ {
+				scenarioHT(r, in, mA, mB)
+				scenarioE(r, in, false, mA, mB)
+				scenarioE(r, in, true, mA, mB)
+				scenarioWriterInside(r, in, "sse.write.afterid", 0, "", mA, mB)
+				scenarioWriterInside(r, in, "sse.write.beforeterm", 0, "", mA, mB)
+				scenarioWriterInside(r, in, "sse.write.afterid", 1, "notification", mA, mB)
+				scenarioWriterInside(r, in, "sse.write.beforeterm", 3, "notification", mA, mB)
+				scenarioWriterInside(r, in, "sse.write.afterid", 2, "request", mA, mB)
+			}
+		}
 	}
-	scenarioSequential(r, in, r.Pick(12, 60))
+	tm("pairs")
+	resumeAll(r)
+	tm("resume")
+	scenarioSequential(r, in, r.Pick(24, 96))
 	for i := 0; i < r.Pick(6, 60); i++ {
 		storm(r, in, i, r.Pick(40, 80))
 	}
+	tm("seq+storm")
 	overlapAll(r)
+	tm("overlap")
 	r.Sample(map[string]interface{}{"scenario": "E-cancelled", "schedule": []string{"open A", "hold get.E", "open B (cancels A, stores B)", "old handler parked at E", "send -> must arrive on B", "release E (old handler deletes its registration)", "send -> must still arrive on B"}})
 	r.Sample(map[string]interface{}{"scenario": "H-T", "schedule": []string{"open A", "hold get.H", "open B: headers flushed?", "if B's headers are at the peer while the handler is parked before the table store: send -> must arrive on B", "release"}})
 	r.Finish("one Streamable session, listening streams opened / closed / reopened by a raw peer; schedules enumerated at the instrumented points get.H (new handler before the table store), get.T (after it), get.E (old handler woke, before its table delete): send placed after 'new headers received' in every gap {before store, after store before old delete, after old delete, old stream closed by its peer before/while the new one registers}; a writer parked inside an event on the old stream (holding its write lock) while the old peer leaves and the successor registers, alone and with 1-3 further notifications / server requests queued on the old stream's lock behind the old handler (stale stream held across the reconnect); sequential reopen chains; free-running reconnect storms with seeded delays at the three points and concurrent senders. Every send made after the new stream's headers were received must succeed and arrive on that stream only. "+
-		"Several streams of one session set up at the same time (each schedule on its own server): [stream A open;] 2/3/4 GETs parked together at get.H, released in enumerated orders one by one (next release after the previous headers) or in a burst, superseded handlers optionally parked at get.T/get.E and let go in a seeded order, judged sends between the steps and unjudged notifications / server requests in flight; seeded walks over {start a GET, release a parked GET, let a parked handler go, send}; free-running rounds of 2-4 concurrent openers with seeded delays. After all set-ups finished and all headers were received: a send succeeds and arrives on exactly one stream which no other opened stream clearly follows (X clearly precedes Y when X's headers were received before Y was started; any single winner among truly concurrent opens), every other opened stream was ended by the server, exactly one stream is registered, a further send arrives on the survivor only. Distinct = (scenario, gap) judged, resp. (overlap class[, walk pattern]) judged.",
-		[]string{"a schedule that the implementation makes impossible (headers not visible before the table store) is recorded as not realisable, not as a failure", "delivery is awaited up to 5 s on loopback (10 s in the overlap schedules)", "a superseded stream that stays open is reported only when a later send/deliver cycle on the owning stream completed meanwhile (15 s watchdog first); an open that merely answers slowly makes the schedule inconclusive"})
+		"HOW A STREAM IS OPENED is a dimension of every family: plain GET, or with a Last-Event-ID that is the id of the event the session's client received last / an id received earlier (stale) / an id never issued (garbage: own format, numeric, 2000 digits, odd characters); the ids are real (every session first gets a stream on which two notifications are delivered and read). H-T, E, writer-inside-old run for all 16 (old, new) combinations, reopen chains rotate the mode against predecessor open / closed by its peer, the storms draw it per reconnect (half of them 'last'), the overlap schedules run all-plain, all-last and seeded-mixed. resume-superseded (each on its own server): [predecessor open / closed by its peer;] stream A (any mode) registers and is parked at get.T — headers at the peer, post-registration (resumption) step not run —, stream B (any mode) registers, superseding A, and is parked at get.T too; then B runs to completion and A continues / A continues while B is still parked, then B / B completes, is closed by its own peer and has removed itself, A continues, a third stream opens; judged sends after every step and one racing with A's continuation; oracle of the overlap schedules. The stream/resumed notices a server writes on a resumed stream are counted, never taken for a delivery (deliveries are matched by nonce). "+
+		"Several streams of one session set up at the same time (each schedule on its own server): [stream A open;] 2/3/4 GETs parked together at get.H, released in enumerated orders one by one (next release after the previous headers) or in a burst, superseded handlers optionally parked at get.T/get.E and let go in a seeded order, judged sends between the steps and unjudged notifications / server requests in flight; seeded walks over {start a GET, release a parked GET, let a parked handler go, send}; free-running rounds of 2-4 concurrent openers with seeded delays. After all set-ups finished and all headers were received: a send succeeds and arrives on exactly one stream which no other opened stream clearly follows (X clearly precedes Y when X's headers were received before Y was started; any single winner among truly concurrent opens), every other opened stream was ended by the server, exactly one stream is registered, a further send arrives on the survivor only. Distinct = (scenario incl. open modes, gap) judged, resp. (overlap / resume class[, walk pattern]) judged.",
+		[]string{"a GET with Last-Event-ID is issued only with an id taken from an event really received on an earlier stream of the session (or, for 'garbage', one of a fixed list of never-issued values); when the events carried no id the GET is plain and counted as such", "a schedule that the implementation makes impossible (headers not visible before the table store) is recorded as not realisable, not as a failure", "delivery is awaited up to 5 s on loopback (10 s in the overlap schedules)", "a superseded stream that stays open is reported only when a later send/deliver cycle on the owning stream completed meanwhile (15 s watchdog first); an open that merely answers slowly makes the schedule inconclusive"})
 }
